@@ -198,7 +198,7 @@ def main(ctx: Ctx):
     ctx.lean_gate()
     validation(ctx)
     cat = catalogue()
-    n = 25 if ctx.tier == "quick" else 700
+    n = 25 if ctx.tier == "quick" else 3000
     for i in range(n):
         for spec in cat:
             if spec.solver and i % 3:
